@@ -44,10 +44,12 @@ HeapOfSeq(s, rt) ==
     LET own  == {s[j][1] : j \in DOMAIN s}
         refs == UNION {EntryRefs(s[j]) : j \in DOMAIN s} \cup {rt}
         ent(id) == s[CHOOSE j \in DOMAIN s : s[j][1] = id]
-    IN [id \in own \cup refs |->
+        raws == {id \in own : ent(id)[2] = "raw"}
+    IN [id \in own \cup refs \cup {Iid(r - 2000) : r \in raws} |->
             IF id \in own
-            THEN (IF ent(id)[2] = "raw" THEN RawRec(id - 2000)
+            THEN (IF ent(id)[2] = "raw" THEN RawRec(id - 2000, ent(id)[3][1])
                   ELSE [k |-> ent(id)[2], v |-> 0, py |-> ent(id)[3], cm |-> ent(id)[4]])
+            ELSE IF id >= 5000 THEN RawRec(id - 5000, "S")
             ELSE ScalarRec(id)]
 
 \* One initial state; the trace is chosen by two actions (block, then trace within the block) so that the
@@ -80,10 +82,12 @@ TStep ==
             \* the property on the LOGGED state: the formulas on the logged heap (= the model heap when sm) and what the
             \* harness saw on the real objects
             \E lbad \in {Broken(IF sm THEN r.h ELSE HeapOfSeq(e.s, Root), Root) \cup ToSet(e.rb)} :
-            \E explained \in {sm /\ vm /\ ToSet(e.rb) \subseteq Broken(r.h, Root)} :
+            \* explained = the logged heap is the predicted one and everything seen broken on the real objects is broken
+            \* in the prediction too (an evaluation result that differs on an already inconsistent state is only drift)
+            \E explained \in {sm /\ ToSet(e.rb) \subseteq Broken(r.h, Root)} :
                /\ heap' = r.h
                /\ fired' = fired \cup r.fired
-               /\ live' = (sm /\ vm)
+               /\ live' = sm
                /\ verdict' = IF verdict # "ok" THEN verdict
                              ELSE IF ~sm THEN "state" ELSE IF ~vm THEN "eval" ELSE IF ~em THEN "err" ELSE "ok"
                /\ vstep' = IF verdict = "ok" /\ ~(sm /\ vm /\ em) THEN l ELSE vstep
